@@ -313,6 +313,13 @@ AST_TO_REVERSE = {
     node_cls: _NEG_OPERATOR_TO_AST[op]
     for node_cls, (op, _, _) in COMPARATOR_TO_OPERATOR.items()
 }
+# "a < b" is "b > a": used when the constrained operand is on the right.
+_MIRRORED_COMPARATORS = {
+    ast.Lt: ast.Gt,
+    ast.LtE: ast.GtE,
+    ast.Gt: ast.Lt,
+    ast.GtE: ast.LtE,
+}
 
 SAFE_DECORATORS_FOR_ARGSPEC_TO_RETVAL = [KnownValue(asynq.asynq), KnownValue(property)]
 if sys.version_info < (3, 11):
@@ -3562,8 +3569,10 @@ class NameCheckVisitor(node_visitor.ReplacingNodeVisitor):
         elif isinstance(rhs_constraint, PredicateProvider) and isinstance(
             lhs, KnownValue
         ):
+            # The predicate is on the right-hand side ("2 < len(x)"), so the
+            # comparison must be mirrored before it is applied to the predicate.
             constraint = self._constraint_from_predicate_provider(
-                rhs_constraint, lhs.val, op
+                rhs_constraint, lhs.val, _MIRRORED_COMPARATORS.get(type(op), type(op))()
             )
         elif isinstance(rhs, KnownValue):
             constraint = self._constraint_from_compare_op(
